@@ -21,6 +21,8 @@ StepOK(e, idx) ==
     [] e.ev = "RectClipLines" -> RectClipLinesOK(e, idx)
     [] e.ev = "Measure" -> MeasureOK(e, idx)
     [] e.ev = "Call" -> CallOK(e, idx)
+    [] e.ev = "TreeOp" -> TreeOpOK(e, idx)
+    [] e.ev = "OpenOp" -> OpenOpOK(e, idx)
     [] e.ev = "EngExec" -> EngExecOK(e, idx)
     [] e.ev = "OffExec" -> OffExecOK(e, idx)
     [] e.ev \in {"EngNew", "EngAdd", "OffNew", "OffAdd", "Reset"} -> TRUE
